@@ -51,6 +51,12 @@ pub fn layout_classes(spec: &FileSpec, bytes: &[u8], n: usize, obs: &mut Obs) ->
     }
 }
 
+/// opens `bytes` and scans forward; None when it does not even open
+fn catch_open_scan(bytes: &[u8], n: usize) -> Option<crate::common::Entries> {
+    let mut c = rd::cursor(bytes).ok()?;
+    rd::scan_fwd(&mut c, n + 2).ok()
+}
+
 impl Prop for C01 {
     type Case = FileSpec;
 
@@ -118,6 +124,41 @@ impl Prop for C01 {
             }
             if sink != bytes {
                 obs.class("finish-bytes-differ-from-into_inner");
+            }
+        }
+
+        // a destination that only receives what is flushed: after finish() (and after into_inner()) returned Ok, the
+        // destination must hold the complete file - "nothing is lost or truncated"
+        for use_finish in [true, false] {
+            let (sink, committed) = crate::ioinstr::StagingSink::new();
+            let r = crate::common::catch(|| -> std::io::Result<()> {
+                let mut w = spec.conf.builder().build(sink);
+                for (k, v) in &entries {
+                    w.insert(k, v)?;
+                }
+                if use_finish {
+                    w.finish()
+                } else {
+                    w.into_inner().map(drop)
+                }
+            });
+            let how = if use_finish { "finish()" } else { "into_inner()" };
+            match r {
+                Ok(Ok(())) => {}
+                Ok(Err(e)) => fail!("c01:staging:err", "{how} failed on a buffering sink: {e}"),
+                Err(p) => fail!("c01:staging:panic", "{how} panicked on a buffering sink: {p}"),
+            }
+            let got = committed.borrow().clone();
+            let ok = match catch_open_scan(&got, n) {
+                Some(fwd) => fwd == entries,
+                None => false,
+            };
+            if !ok {
+                fail!(
+                    "c01:staging:incomplete",
+                    "after {how} returned Ok, a destination that receives bytes only on flush holds {} of the file's {} bytes and does not read back as the inserted entries ({})",
+                    got.len(), bytes.len(), spec.conf.label()
+                );
             }
         }
 
